@@ -116,6 +116,32 @@ def decide(gd, idx, cls, sample_run_games):
                 problems.append({"rule": rule, "pos": pc, "prune": prune, "problem": "solve raised %s instead of ValueError: %s" % (type(e).__name__, str(e)[:120]), "game": g})
             finally:
                 MON.metering = False
+        if j % 5 == 0 and len(g["players"]) == len(base["players"]) and all(isinstance(g[k], list) for k in ("rewards", "players", "transition_list", "final_states")):
+            # the same StochasticGame object: solve the well-formed game, then the description is edited in place and solved again
+            stats["same_object_edits"] = stats.get("same_object_edits", 0) + 1
+            good = copy.deepcopy(base)
+            try:
+                sg = tad.StochasticGame(good["rewards"], good["players"], good["transition_list"], good["final_states"], prune_states=False)
+                with monitors.budget(10 ** 7):
+                    sg.solve()
+                bad = copy.deepcopy(g)
+                good["rewards"][:] = bad["rewards"]
+                good["players"][:] = bad["players"]
+                good["transition_list"][:] = bad["transition_list"]
+                good["final_states"][:] = bad["final_states"]
+                with monitors.budget(10 ** 7):
+                    r = sg.solve()
+                problems.append({"rule": rule, "pos": pc, "problem": "a game edited into a malformed one after a first solve was solved again through the same object",
+                                 "result": repr(r)[:200], "game": g})
+            except ValueError:
+                pass
+            except BaseException as e:      # noqa
+                if isinstance(e, (KeyboardInterrupt, SystemExit)):
+                    raise
+                problems.append({"rule": rule, "pos": pc, "problem": "second solve of an edited game through the same object raised %s instead of ValueError: %s"
+                                 % (type(e).__name__, str(e)[:100]), "game": g})
+            finally:
+                MON.metering = False
         if sample_run_games and j % 4 == 0:
             stats["run_games_calls"] += 1
             order = j % 3
